@@ -8,6 +8,7 @@ import (
 
 func init() {
 	Register("NewMasked", opNewMasked)
+	Register("NewMaskedF", opNewMasked)
 	Register("MaskPred", opMaskPred)
 	Register("Soften", opSoften)
 	Register("ResetMask", opResetMask)
@@ -28,6 +29,9 @@ func opNewMasked(w *World, st *Step) execResult {
 		mask[i] = x == 1
 	}
 	opts := []tensor.ConsOpt{tensor.WithShape(shape...), tensor.WithBacking(b.Interface(), mask)}
+	if st.Op.K == "NewMaskedF" {
+		opts = append(opts, tensor.AsFortran(nil))
+	}
 	opts = append(opts, w.engineOpt()...)
 	w.backs = append(w.backs, b)
 	if w.free {
